@@ -377,12 +377,16 @@ func (t *ART) newNode4() (artNode, *node4) {
 
 func (t *ART) newLeaf(key artKey) (artNode, *artLeaf) {
 	addr, lf := t.allocator.allocLeaf(key)
+	// A leaf that has not been counted in len/size yet carries the delete mark; setValue counts it
+	// and setKeyFlags clears the mark. Without it a flags-only leaf whose flags are zero cannot be
+	// told from a fresh leaf and is counted again by the next write.
+	lf.markDelete()
 	return artNode{kind: typeLeaf, addr: addr}, lf
 }
 
 func (t *ART) setValue(addr arena.MemdbArenaAddr, l *artLeaf, value []byte, ops []kv.FlagsOp) {
 	flags := l.GetKeyFlags()
-	if flags == 0 && l.vLogAddr.IsNull() || l.isDeleted() {
+	if l.isDeleted() {
 		t.len++
 		t.size += int(l.keyLen)
 	}
